@@ -348,6 +348,30 @@ func LongCells(offset, n int) []CellD {
 	return cs
 }
 
+// BoundaryCells: narrow default-style padding (one byte per cell, no control
+// sequence) with a two-code-point cluster placed so that its first code point
+// ends shift bytes before/after each power-of-two byte offset from 4 KiB to
+// 128 KiB of the encoded string - the sizes at which readers and scratch
+// buffers are commonly capped. A consumer that re-segments at such an offset
+// tears the cluster apart.
+func BoundaryCells(shift int) []CellD {
+	var cs []CellD
+	pos := 0 // bytes encoded so far
+	for _, b := range []int{4096, 8192, 16384, 32768, 65536, 131072} {
+		target := b + shift - 1 // the cluster's first byte: "e" ends at target+1
+		for pos < target {
+			cs = append(cs, CellD{G: "a"})
+			pos++
+		}
+		cs = append(cs, CellD{G: "e\u0301"})
+		pos += 3
+	}
+	for i := 0; i < 8; i++ {
+		cs = append(cs, CellD{G: "z"})
+	}
+	return cs
+}
+
 // Fixed: hand-written corner cases.
 func Fixed() [][]CellD {
 	c := func(g string, s StyleD) CellD { return CellD{G: g, S: s} }
@@ -513,6 +537,15 @@ func Generate(rng *rand.Rand, thorough bool) []*Scn {
 	}
 	for i := 0; i < nlong; i++ {
 		add(forProducers("long", [][]CellD{LongCells(i, 1500+rng.Intn(300))}, []string{"cells", "ss"}, false, 0))
+	}
+
+	// clusters across power-of-two byte offsets of a long encoding
+	shifts := []int{0}
+	if thorough {
+		shifts = []int{-2, -1, 0, 1, 2}
+	}
+	for _, sh := range shifts {
+		add(forProducers("boundary", [][]CellD{BoundaryCells(sh)}, []string{"cells", "ss"}, false, 0))
 	}
 
 	// the renderer under capability fallbacks (palette instead of direct colour, plain
